@@ -135,7 +135,12 @@ def install_openai(I, prog, env, replies, log):
         spec = replies.get(tag, replies.get('default', ('err',)))
         kind = spec[0]
         if kind == 'err':
-            return ReadyFut(Err(Opaque('OpenAIError', 'transport / status / decode error')))
+            # which fault: 0 the endpoint answers 4xx with an error object (OpenAIError::ApiError), 1 the transport
+            # fails (Reqwest), 2 a 200 whose body is not the JSON of a completion (JSONDeserialize)
+            vname = ('ApiError', 'Reqwest', 'JSONDeserialize')[spec[1] if len(spec) > 1 and spec[1] in (0, 1, 2) else 0]
+            vs = [n for n, _cfg in extsrc.enum_variants('async-openai-[0-9]*', 'OpenAIError')]
+            payload = (new_string(I2, b'bad'),) if vname != 'JSONDeserialize' else (new_string(I2, b'expected value'), new_string(I2, b'not json'))
+            return ReadyFut(Err(Enum('OpenAIError', vs.index(vname), vname, payload)))
         if kind == 'nochoices':
             return ReadyFut(Ok(mk_resp(I2, [])))
         if kind == 'null':
@@ -212,7 +217,12 @@ def run_task(task):
                 start = len(src) + 3
                 src += [35, 83, 10] + content + [10, 35, 69, 10]     # "#S\n" content "\n#E\n"
                 attrs_d = {'name': name.encode()}
-                info = dict(name=name, file=('f%d.py' % fi).encode(), ai=bs['ai'], line=line, expected_content=tuple(expected))
+                col = 3
+                if bs.get('same_line') and bi > 0:
+                    line -= 4
+                    col = 3 + 60 * bi
+                info = dict(name=name, file=('f%d.py' % fi).encode(), ai=bs['ai'], line=line, col=col, expected_content=tuple(expected),
+                            same_line=bool(bs.get('same_line') and bi > 0))
                 if bs['ai']:
                     cond = [tag] + [I.fresh_byte('%s_q%d' % (name, i), COND_ALPHA) for i in range(bs['cond_len'])]
                     # the condition is trimmed only for the emptiness test: keep its ends non-blank
@@ -235,7 +245,7 @@ def run_task(task):
                     if bs.get('pattern'):
                         attrs_d['check-ai-pattern'] = c18.PATTERNS[bs['pattern']]
                         info['pattern'] = bs['pattern']
-                blk = mk_block(prog, I, attrs_d, (line, 3), (line, 20), (start, start + len(content)), (line, 30), (line + 2, 1))
+                blk = mk_block(prog, I, attrs_d, (line, col), (line, col + 17), (start, start + len(content)), (line, col + 27), (line, col + 40) if info['same_line'] or (bi + 1 < len(fblocks) and fblocks[bi + 1].get('same_line')) else (line + 2, 1))
                 bwcs.append(mk_bwc(prog, blk))
                 blocks.append(info)
                 line += 4
@@ -271,6 +281,7 @@ def run_task(task):
 
     def witness(m):
         w = dict(files={}, env={}, blocks=[])
+        w['same_line'] = [b['name'] for b in holder['blocks'] if b.get('same_line')]
         if task.get('order'):
             w['slow_ok'] = 0.6      # many requests in flight: let the faulty one finish while the others are pending
         for path, src, _b in holder['files']:
@@ -327,7 +338,7 @@ def run_task(task):
             viol(I, True, 'stray-request', '%d requests that belong to no check-ai block' % len(stray))
         # verdicts
         for b in blocks:
-            got = [v for v in res.get(b['file'], []) if v['start'][0] == b['line']]
+            got = [v for v in res.get(b['file'], []) if tuple(v['start']) == (b['line'], b['col'])]
             txt = b['reply'][1]
             ok = is_ok_reply(txt)
             if len(got) == 0:
@@ -344,7 +355,9 @@ def run_task(task):
                     viol(I, seq_ne(msg, txt), 'diagnostic-misquotes-reply', 'block %s: ai_message differs from the reply' % b['name'])
             else:
                 viol(I, True, 'duplicate-diagnostic', 'block %s: %d diagnostics' % (b['name'], len(got)))
-        extra = sum(len(v) for v in res.values()) - sum(1 for b in blocks for v in res.get(b['file'], []) if v['start'][0] == b['line'])
+        extra = sum(len(v) for v in res.values()) - sum(1 for b in blocks for v in res.get(b['file'], []) if tuple(v['start']) == (b['line'], b['col']))
+        if any(b['same_line'] for b in blocks):
+            out['cover']['two AI blocks on one line'] = 1
         if extra:
             viol(I, True, 'stray-diagnostic', '%d diagnostics on blocks without check-ai' % extra)
         out['cover']['decided'] = out['cover'].get('decided', 0) + 1
@@ -421,7 +434,18 @@ class FakeEndpoint:
                         spec = tuple(b['reply'])
                 if spec[0] != 'err' and slow_ok:
                     _time.sleep(slow_ok)        # faults come back at once, healthy replies take their time
-                if spec[0] == 'err':
+                if spec[0] == 'err' and len(spec) > 1 and spec[1] == 1:
+                    # transport fault: the connection is closed without an answer
+                    try:
+                        self.connection.shutdown(2)
+                    except OSError:
+                        pass
+                    self.close_connection = True
+                    return
+                if spec[0] == 'err' and len(spec) > 1 and spec[1] == 2:
+                    self.send_response(200)
+                    out = b'not json'
+                elif spec[0] == 'err':
                     self.send_response(400)
                     out = b'{"error": {"message": "bad", "type": "invalid_request_error", "param": null, "code": null}}'
                 elif spec[0] == 'nochoices':
@@ -465,7 +489,17 @@ def run_real(binary, w):
         # real files: python comments around the content, attributes written as tag attributes
         for fname, _src in w['files'].items():
             lines = []
-            for b in blocks_of(w, fname):
+            fb = blocks_of(w, fname)
+            same = set(w.get('same_line') or [])
+            for k, b in enumerate(fb):
+                glued = b.get('name') in same or (k + 1 < len(fb) and fb[k + 1].get('name') in same)
+                if glued and '\n' not in b['raw']:
+                    one = '%s %s <!-- </block> -->' % (b['tagline'], b['raw'])
+                    if b.get('name') in same and lines:
+                        lines[-1] += ' ' + one      # the start tag shares the line of the previous block's start tag
+                    else:
+                        lines.append(one)
+                    continue
                 lines.append(b['tagline'])
                 lines.append(b['raw'])
                 lines.append('<!-- </block> -->')
@@ -517,6 +551,7 @@ def realise(w):
     for i, nm in enumerate(w['all_names']):
         b = ai.get(nm)
         ent = rb[i]
+        ent['name'] = nm
         if b:
             if '"' in b['cond'] or '\n' in b['cond']:
                 return False
@@ -571,8 +606,11 @@ def check_real(binary, w):
     return dict(ok=ok, observed=dict(code=obs['code'], diags=obs['diags'], stderr=obs['stderr'], nreq=len(obs['requests'])), expected=exp)
 
 
-def B(ai=True, pattern=None, lead=0, core=2, trail=0, cond_len=1, reply=('text', 2), pre=1):
-    return dict(ai=ai, pattern=pattern, lead=lead, core=core, trail=trail, cond_len=cond_len, reply=reply, pre=pre)
+def B(ai=True, pattern=None, lead=0, core=2, trail=0, cond_len=1, reply=('text', 2), pre=1, same_line=False):
+    d = dict(ai=ai, pattern=pattern, lead=lead, core=core, trail=trail, cond_len=cond_len, reply=reply, pre=pre)
+    if same_line:
+        d['same_line'] = True         # the start tag sits on the line of the previous block's start tag, further right
+    return d
 
 
 def tasks_for(tier):
@@ -594,6 +632,14 @@ def tasks_for(tier):
         T.append(dict(files=[[B(pattern='edge', core=1, lead=lead, trail=trail, reply=('text', 2))]], key=True, model_env=False, url_env=False))
     T.append(dict(files=[[B(core=0, lead=2, reply=('text', 2))]], key=True, model_env=False, url_env=False))
     T.append(dict(files=[[B(core=0, lead=1, reply=('err', 0))]], key=True, model_env=False, url_env=False))
+    # two blocks whose start tags share a line (two one-line comments side by side): still two verdicts
+    for rs in ((('text', 3), ('text', 3)), (('text', 2), ('text', 3)), (('text', 3), ('err', 0))):
+        T.append(dict(files=[[B(reply=rs[0]), B(reply=rs[1], same_line=True)]], key=True, model_env=False, url_env=False))
+    # the three kinds of fault (4xx with an error object, transport failure, a body that is not a completion),
+    # also on a block whose own severity is below error: a fault is never a diagnostic of the block
+    for k in (1, 2):
+        T.append(dict(files=[[B(reply=('err', k), lead=1, trail=1)]], key=True, model_env=False, url_env=False))
+        T.append(dict(files=[[B(reply=('text', 2)), B(reply=('err', k))]], key=True, model_env=False, url_env=False))
     # two and three blocks, one or two files, a non-AI block in between; faults on each position
     for rs in itertools.product([('text', 2), ('text', 3), ('err', 0), ('null', 0)], repeat=2):
         T.append(dict(files=[[B(reply=rs[0]), B(ai=False), B(reply=rs[1])]], key=True, model_env=False, url_env=False))
@@ -688,7 +734,7 @@ def main(tier):
                      'three regex forms for check-ai-pattern (reference matcher mirsym/rexmodel.py)',
                      'format! text is rendered from the compact fmt template of the MIR (literal pieces + Display of strings)'],
         stubs=['async_openai::{Client, config::OpenAIConfig, Chat, *Args builders}', 'tokio::{JoinSet, Runtime}', 'std::env::var', 'secrecy::ExposeSecret'],
-        must_cover=['decided', 'fault', 'two or more AI blocks'],
+        must_cover=['two AI blocks on one line', 'decided', 'fault', 'two or more AI blocks'],
         explanation='requests recorded by the create() stub and the diagnostics of validators::run compared with the reference per block; PC∧(request≠verbatim), PC∧(verdict≠reference) asked on every path and every completion order')
 
 
